@@ -1035,6 +1035,16 @@ func stepUpdate(o *Out, c *typCtx, up *merge.Updater, ig ignoreCfg, st *updState
 		}
 		before := snapshot(st, tv)
 		pre := copyManaged(st.managers)
+		if up2 := ig.equivalentFilterUpdater(false, st.conv); up2 != nil {
+			// a panic of the exclusion-set form that the equivalent filter form does not share (the call is
+			// made once more below, where the panic ends the step)
+			if safe(func() string { up.Update(st.live, tv, ver, st.managers, mgr); return "ok" }) == "panic" {
+				msg := lastPanic
+				if safe(func() string { up2.Update(st.live, tv, ver, st.managers, mgr); return "ok" }) == "ok" {
+					o.Fail("C19", "exclusion-set-equals-filter", "the exclusion-set form panics ("+msg+"), the filter form does not", "exclusion-set-equals-filter/panic "+op, op)
+				}
+			}
+		}
 		newObj, managers, err := up.Update(st.live, tv, ver, st.managers, mgr)
 		checkSnapshot(o, op, before, st, tv)
 		if up2 := ig.equivalentFilterUpdater(false, st.conv); up2 != nil {
@@ -1088,6 +1098,14 @@ func stepApply(o *Out, c *typCtx, up *merge.Updater, ig ignoreCfg, st *updState,
 		}
 		before := snapshot(st, tv)
 		pre := copyManaged(st.managers)
+		if up2 := ig.equivalentFilterUpdater(noop, st.conv); up2 != nil {
+			if safe(func() string { up.Apply(st.live, tv, ver, st.managers, mgr, force); return "ok" }) == "panic" {
+				msg := lastPanic
+				if safe(func() string { up2.Apply(st.live, tv, ver, st.managers, mgr, force); return "ok" }) == "ok" {
+					o.Fail("C19", "exclusion-set-equals-filter", "the exclusion-set form panics ("+msg+"), the filter form does not", "exclusion-set-equals-filter/panic "+op, op)
+				}
+			}
+		}
 		newObj, managers, err := up.Apply(st.live, tv, ver, st.managers, mgr, force)
 		checkSnapshot(o, op, before, st, tv)
 		if up2 := ig.equivalentFilterUpdater(noop, st.conv); up2 != nil && orderDependentVersions(st.managers, mgr, ver) < 2 {
